@@ -200,9 +200,10 @@ def splitLines : Str → List Str
       | [] => [[c]]            -- unreachable: splitLines never returns []
       | l :: ls => (c :: l) :: ls
 
-/-- "each folded segment, until the line is consumed": the physical lines of one non-empty logical line.
+/-- "each folded segment, until the line is consumed": the PHYSICAL lines of one non-empty logical line, each without
+    the LF that the C prints in front of it (`u_fprintf(…, "\n%s%*.*S%s", prefix_text, len, len, tok, …)`).
     `fuel` ≥ the length of the line.  `.error CIF_INTERNAL_ERROR` when fold_line finds no fold point. -/
-def writeSegments (fold pre : Bool) (protect : Bool) (target : Nat) : Nat → Str → Except Code Str
+def segLines (fold pre : Bool) (protect : Bool) (target : Nat) : Nat → Str → Except Code (List Str)
   | 0, _ => .ok []
   | _ + 1, [] => .ok []
   | fuel + 1, c :: cs =>
@@ -211,30 +212,36 @@ def writeSegments (fold pre : Bool) (protect : Bool) (target : Nat) : Nat → St
     if len = 0 then .error ErrCodes.CIF_INTERNAL_ERROR
     else
       let more := decide (len < tok.length)                -- tok[len] != 0
-      match writeSegments fold pre protect target fuel (tok.drop len) with
+      match segLines fold pre protect target fuel (tok.drop len) with
       | .error e => .error e
       | .ok rest =>
-        .ok (10 :: ((if pre then PREFIX else []) ++ printfS len tok ++ (if more || protect then BSL else []) ++ rest))
+        .ok (((if pre then PREFIX else []) ++ printfS len tok ++ (if more || protect then BSL else [])) :: rest)
 
-/-- one logical line of a folded and/or prefixed text field -/
-def writeLogicalLine (fold pre : Bool) (target : Nat) (line : Str) : Except Code Str :=
+/-- the physical lines of one logical line of a folded and/or prefixed text field: an empty logical line is one empty
+    physical line (no prefix); a protected line (ends in a backslash, folding on) is followed by an empty physical line -/
+def logicalLinePhys (fold pre : Bool) (target : Nat) (line : Str) : Except Code (List Str) :=
   match line with
-  | [] => .ok [10]                                           -- empty line (also an empty last line)
-  | _ =>
+  | [] => .ok [[]]
+  | _ :: _ =>
     let protect := fold && endsBslBlank line
-    match writeSegments fold pre protect target line.length line with
+    match segLines fold pre protect target line.length line with
     | .error e => .error e
-    | .ok o => .ok (o ++ (if protect then [10] else []))
+    | .ok ps => .ok (ps ++ (if protect then [[]] else []))
 
-def writeLogicalLines (fold pre : Bool) (target : Nat) : List Str → Except Code Str
+def textPhys (fold pre : Bool) (target : Nat) : List Str → Except Code (List Str)
   | [] => .ok []
   | l :: ls =>
-    match writeLogicalLine fold pre target l with
+    match logicalLinePhys fold pre target l with
     | .error e => .error e
-    | .ok o =>
-      match writeLogicalLines fold pre target ls with
+    | .ok ps =>
+      match textPhys fold pre target ls with
       | .error e => .error e
-      | .ok os => .ok (o ++ os)
+      | .ok qs => .ok (ps ++ qs)
+
+/-- every physical line is printed behind a LF -/
+def flat : List Str → Str
+  | [] => []
+  | p :: ps => 10 :: (p ++ flat ps)
 
 /-- `target_length` of write_text -/
 def targetLength (pre : Bool) : Nat := LINE - SLACK - (if pre then PREFIX_LENGTH else 0)
@@ -247,9 +254,9 @@ def textMarker (fold pre : Bool) : Str := (if pre then PREFIX ++ BSL else []) ++
 def textBody (text : Str) (fold pre : Bool) : Except Code Str :=
   if fold = false ∧ pre = false then .ok text
   else
-    match writeLogicalLines fold pre (targetLength pre) (splitLines text) with
+    match textPhys fold pre (targetLength pre) (splitLines text) with
     | .error e => .error e
-    | .ok o => .ok (textMarker fold pre ++ o)
+    | .ok ps => .ok (textMarker fold pre ++ flat ps)
 
 /-- `write_text` (requires `text ≠ []`, asserted by the C) -/
 def writeText (c : Ctx) (text : Str) (fold pre : Bool) : W :=
